@@ -6,8 +6,8 @@ import (
 )
 
 //verif:witness H_C02_routing routed rejected
-//verif:bound C02 quick real Refresh (toStorage, NewPlugin/inject via the reflect shim, tag-list parsing, duplicate detection, start-up, findLoggerForTag, rebinding): one registered tag of 2..3 one-byte segments (first byte a, others in {a,b}; optional leading underscore) plus the two built-in tags; two configured loggers each listing one pattern (literal, wildcard 'P_*', or one of two malformed star shapes; P of 1..2 one-byte segments over {a,b}, optional leading underscore), optional root logger; map iteration in insertion order
-//verif:bound C02 thorough as quick with P of 1..3 segments and map iteration in insertion or reverse order
+//verif:bound C02 quick real Refresh (toStorage, NewPlugin/inject via the reflect shim, tag-list parsing, duplicate detection, start-up, findLoggerForTag, rebinding): one registered tag of 2 (thorough: 2..3) one-byte segments (first byte a, others in {a,b}; optional leading underscore) plus the two built-in tags; two configured loggers each listing one pattern (literal or wildcard 'P_*'; for the first logger (thorough: both) also two malformed star shapes; P of 1..2 one-byte segments over {a,b}, optional leading underscore), optional root logger; optionally a second registered tag one segment deeper; every map iterated in insertion order or every map in reverse order (one choice per path)
+//verif:bound C02 thorough as quick with P of 1..3 segments
 //verif:assume C02 the wildcard with empty prefix ('_*') is excluded: the statement's 'proper underscore-delimited prefix' does not settle whether the empty prefix counts
 //verif:assume C02 tag and pattern bytes range over the small alphabets stated in the bounds (chosen so that collisions and prefix relations are frequent); other bytes are outside the bound
 
@@ -39,7 +39,7 @@ func vSpecRoute(tag string, pats []string) string {
 
 // vPattern: a literal tag, a wildcard 'P_*', or one of two malformed wildcard shapes; P has
 // 1..maxSeg one-byte segments over {a,b} and an optional leading underscore.
-func vPattern(name string, maxSeg int) string {
+func vPattern(name string, maxSeg int, malformed bool) string {
 	nseg := 1 + vChoose(name+"segs", maxSeg)
 	p := ""
 	if vChoose(name+"lead", 2) == 1 {
@@ -53,7 +53,11 @@ func vPattern(name string, maxSeg int) string {
 		}
 		p += string([]byte{c})
 	}
-	switch vChoose(name+"shape", 4) {
+	nshape := 2
+	if malformed {
+		nshape = 4
+	}
+	switch vChoose(name+"shape", nshape) {
 	case 1:
 		p += "_*"
 	case 2:
@@ -76,10 +80,12 @@ func H_C02_routing() {
 	maxLen, maxPats := 2, 1
 	if vTier() > 0 {
 		maxLen, maxPats = 3, 1
-		vOpt("maporder", 1)
 	}
 	// the registered tag
-	nseg := 2 + vChoose("segments", 2)
+	nseg := 2
+	if vTier() > 0 {
+		nseg = 2 + vChoose("segments", 2)
+	}
 	tagName := ""
 	if vChoose("lead", 2) == 1 {
 		tagName = "_"
@@ -98,12 +104,20 @@ func H_C02_routing() {
 	}
 	vAssume(isValidTag(tagName))
 	tag := RegisterTag(tagName)
+	// a second registered tag one segment deeper (prefix relation between registered tags)
+	deepName := tagName + "_a"
+	var deep *Tag
+	if nseg < 3 && vChoose("deeper", 2) == 1 {
+		deep = RegisterTag(deepName)
+	}
+	vOpt("maporder", 3) // every map iterates in insertion order, or every map in reverse order
 	savedHandles := loggerMap // natively the repository's own test files have requested handles
 	loggerMap = map[string]*LoggerWrapper{}
 	defer func() {
 		loggerMap = savedHandles
 		Destroy()
 		delete(tagRegistry, tagName)
+		delete(tagRegistry, deepName)
 		tag.logger = nil
 		TagAppDef.logger, TagBizDef.logger = nil, nil
 	}()
@@ -118,7 +132,7 @@ func H_C02_routing() {
 		np := 1 + vChoose("npats", maxPats)
 		list := ""
 		for i := 0; i < np; i++ {
-			p := vPattern("pat", maxLen)
+			p := vPattern("pat", maxLen, l == 0 || vTier() > 0)
 			pats[l] = append(pats[l], p)
 			all = append(all, p)
 			if i > 0 {
@@ -176,7 +190,11 @@ func H_C02_routing() {
 	saved := Stdout
 	sink := &vSink{}
 	Stdout = sink
-	for _, tg := range []*Tag{tag, TagAppDef} {
+	tags := []*Tag{tag, TagAppDef}
+	if deep != nil {
+		tags = append(tags, deep)
+	}
+	for _, tg := range tags {
 		before := [3]int{apps[0].appends, apps[1].appends, apps[2].appends}
 		nsink := len(sink.writes)
 		Info(context.Background(), tg, Msg("m"))
